@@ -253,3 +253,29 @@ theorem param_auth_roundtrip_any (t : Str) (x : Str × Option Str) (d : Dict (Op
     authRest_params t x d hk hnd hv, ok_bind, pure_eq_ok]
 
 end Wz.Http
+
+namespace Wz.Http
+open Wz
+
+theorem www_param_roundtrip_any (t : Str) (x : Str × Option Str) (d : Dict (Option Str))
+    (ht : SchemeOk t = true) (hnd' : (t == "digest".toList) = false)
+    (hk : ∀ y ∈ x :: d, KeyOk y.1 = true)
+    (hnd : ((x :: d).map (·.1)).Nodup) (hv : x.2.isSome = true) :
+    (wwwToHeader ⟨t, x :: d, none⟩ >>= wwwFromHeader) = .ok (some ⟨t, x :: d, none⟩) := by
+  simp only [SchemeOk, Bool.and_eq_true, Bool.not_eq_true', beq_iff_eq, bne_iff_ne, ne_eq] at ht
+  obtain ⟨⟨hsp, hlow⟩, _⟩ := ht
+  have hsp' : ' ' ∉ pyTitle t := by simpa using hsp
+  have hdump : wwwToHeader ⟨t, x :: d, none⟩
+      = .ok (pyTitle t ++ ' ' :: join ", " ((x :: d).map dictItemText)) := by
+    unfold wwwToHeader
+    simp only [hnd', Bool.false_eq_true, if_false, dumpHeaderDict_ok _ hk]
+    rfl
+  rw [hdump]
+  simp only [ok_bind]
+  unfold wwwFromHeader
+  have hne : (pyTitle t ++ ' ' :: join ", " ((x :: d).map dictItemText)).isEmpty = false := by
+    cases pyTitle t <;> rfl
+  simp only [hne, Bool.false_eq_true, if_false, partition_found hsp', hlow,
+    authRest_params t x d hk hnd hv, ok_bind, pure_eq_ok]
+
+end Wz.Http
